@@ -337,6 +337,10 @@ def _call_method(ex, base, attr, args, kwargs, st, node, spec, after=None):
         h = w.str_methods.get(attr)
         if h is None:
             raise Unsupported(f"str.{attr} at line {getattr(node, 'lineno', '?')}")
+        if not spec:
+            # an optional value passed where a string is needed: it must not be None here (obligation under the guards in
+            # force, e.g. `if self._suffix and name.endswith(self._suffix)`)
+            args = [ex.need_not_none(a, st, node, f"argument of str.{attr}") if isinstance(a, Opt) else a for a in args]
         return h(ex, st, as_str(base), args, kwargs, node, spec), None
     if isinstance(base, ListV):
         return w.list_method(ex, st, base, attr, args, kwargs, node, spec)
